@@ -76,7 +76,11 @@ def ref_call(o, table):
     calls = [(name, bound)]
     kind = beh['kind']
     if kind == 'ret':
-        return dict(result=beh['result'](bound) if callable(beh.get('result')) else bound), calls
+        result = beh['result'](bound) if callable(beh.get('result')) else bound
+        if beh.get('normalise'):
+            import json
+            result = json.loads(json.dumps(result))      # what the value looks like once it went through JSON
+        return dict(result=result), calls
     if kind == 'perr':
         return dict(code=beh['code'], exact=(beh['code'], beh['message'], beh.get('data', ABSENT))), calls
     if kind == 'boom':
